@@ -156,28 +156,37 @@ def declared(config_type: type, name: str) -> dict | None:
 
 @dataclass
 class Kind:
-    name: str  # bool int autoInt text opaque hexBytes ranges ranges2d enum choice autoInts other
+    name: str  # bool int autoInt hexInt text opaque hexBytes ranges ranges2d enum choice autoInts tuples enums dict other
     optional: bool = False
-    members: list[tuple[str, int]] = field(default_factory=list)  # enum
+    members: list[tuple[str, int]] = field(default_factory=list)  # enum / enums
     choices: list[str] = field(default_factory=list)
     sub: str = ""  # opaque: uri / psuri / float / oem;  text: str / path; other: description
     pytype: Any = None
+    arity: int = 0  # tuples
 
-    def lean(self, const=None) -> str:
-        if self.name == "enum":
-            k = "enum:" + ",".join(f"{n}={v}" for n, v in self.members)
+    def lean(self, const=None, positional=False) -> str:
+        if self.name in ("enum", "enums"):
+            k = self.name + ":" + ",".join(f"{n}={v}" for n, v in self.members)
         elif self.name == "choice":
             k = "choice:" + ",".join(self.choices)
+        elif self.name == "tuples":
+            k = f"tuples:{self.arity}"
         else:
             k = self.name
         if self.optional:
             k += "/opt"
+        if positional:
+            k += "/pos"
         if const is not None:
             k += "/const=" + const
         return k
 
+    def tag(self) -> str:
+        """constructor of the model's `KindTag` (gen/c18_options.py)"""
+        return self.name if self.name != "other" else "unmodelled"
+
     def label(self) -> str:
-        return self.name + (":" + self.sub if self.sub else "") + ("?" if self.optional else "")
+        return self.name + (f":{self.arity}" if self.name == "tuples" else "") + (":" + self.sub if self.sub else "") + ("?" if self.optional else "")
 
 
 def _validator_funcs(metadata) -> list:
@@ -203,11 +212,14 @@ def classify(annotation, metadata, name: str = "", model: type | None = None) ->
         ann = ann.__origin__
     funcs = _validator_funcs(md)
     auto_f = get_args(gc.AutoInt)[1].func
+    hexint_f = get_args(gc.HexInt)[1].func
     hex_f = get_args(gc.HexBytes)[1].func
     r2_f = get_args(gc.Ranges2D)[1].func
 
     if auto_f in funcs and ann is int:
         return Kind("autoInt", optional)
+    if hexint_f in funcs and ann is int:
+        return Kind("hexInt", optional)
     if hex_f in funcs:
         return Kind("hexBytes", optional)
     if gc._process_ranges in funcs:
@@ -248,6 +260,17 @@ def classify(annotation, metadata, name: str = "", model: type | None = None) ->
         (el,) = get_args(ann)
         if get_origin(el) is Annotated and el.__origin__ is int and auto_f in _validator_funcs(el.__metadata__):
             return Kind("autoInts", optional)
+        if get_origin(el) is Annotated and isinstance(el.__origin__, type) and issubclass(el.__origin__, Enum) and el.__metadata__:
+            e = el.__origin__
+            return Kind("enums", optional, members=[(m.name, int(m.value)) for m in e], pytype=e)
+        if get_origin(el) is Annotated and get_origin(el.__origin__) is tuple and set(get_args(el.__origin__)) == {int}:
+            # list[Annotated[tuple[int, ...], BeforeValidator(parse_id | parse_mem)]]: the arity is the tuple's
+            import gallia.commands.primitive.uds.dddi as dddi
+
+            if set(_validator_funcs(el.__metadata__)) <= {dddi.parse_id, dddi.parse_mem}:
+                return Kind("tuples", optional, arity=len(get_args(el.__origin__)))
+    if get_origin(ann) is dict and get_args(ann) == (str, Any):
+        return Kind("dict", optional)
     return Kind("other", optional, sub=str(ann)[:60])
 
 
@@ -299,8 +322,10 @@ def options(path, cmd) -> list[Opt]:
         if "const" in kw:
             const = kw["const"] if not (isinstance(kw["const"], tuple) and kw["const"][:1] == ("expr",)) else eval(kw["const"][1], {})
         section = d["section"] if d else None
-        env = f"GALLIA_{name.upper()}" if gallia_field and not positional and not hidden else None
-        key = f"{section}.{name}" if gallia_field and section is not None and not positional and not hidden else None
+        # a positional argument is read from the environment / the file like any other (attributes_from_env does not
+        # look at `positional`), argparse just never gets to see that value
+        env = f"GALLIA_{name.upper()}" if gallia_field and not hidden else None
+        key = f"{section}.{name}" if gallia_field and section is not None and not hidden else None
         if gallia_field and section == "" and key is not None:
             key = name
         required = info.is_required()
@@ -334,20 +359,123 @@ def canon_val(v) -> str:
     if isinstance(v, bytes):
         return "x:" + v.hex()
     if isinstance(v, TargetURI):
-        return "t:" + thex(v.raw)
+        return "t:" + thex(v.raw) if isinstance(v.raw, str) else "py:" + thex(f"{type(v).__name__}({v.raw!r})")
     if isinstance(v, (str, Path)):
         return "t:" + thex(str(v))
     if isinstance(v, (list, tuple)) and all(isinstance(x, int) and not isinstance(x, bool) for x in v):
         return "l:" + ",".join(str(int(x)) for x in v)
-    if isinstance(v, dict) and all(isinstance(k, int) for k in v):
+    if isinstance(v, list) and v and all(isinstance(x, (tuple, list)) and all(isinstance(y, int) and not isinstance(y, bool) for y in x) for x in v):
+        return "T:" + "/".join("+".join(str(int(y)) for y in x) for x in v)
+    if isinstance(v, dict) and v and all(isinstance(k, int) for k in v):
         return "m:" + ";".join(f"{k}=" + ("-" if v[k] is None else "+".join(str(int(x)) for x in v[k])) for k in sorted(v))
+    if isinstance(v, dict) and all(isinstance(k, str) for k in v):
+        return ("m:" if not v else "d:" + tree_tok(v))
     return "py:" + thex(repr(v))
 
 
-def canon_json(v) -> str:
+def canon_val_kind(v, kind) -> str:
+    """`canon_val` where the field kind settles what an empty container is"""
+    if kind is not None and v is not None:
+        if kind.name == "opaque" and kind.sub == "float" and isinstance(v, (int, float)) and not isinstance(v, bool):
+            return "t:" + thex(repr(float(v)))      # a float field whose (unvalidated) default is written as an int
+        if kind.name == "dict" and isinstance(v, dict):
+            return "d:" + tree_tok(v)
+        if kind.name == "tuples" and isinstance(v, list):
+            return "T:" + "/".join("+".join(str(int(y)) for y in x) for x in v)
+    return canon_val(v)
+
+
+def atom_tok(x) -> str | None:
+    if isinstance(x, bool):
+        return None
+    if isinstance(x, int):
+        return f"i:{x}"
+    if isinstance(x, str):
+        return "s:" + thex(x)
+    return None
+
+
+def tree_tok(v) -> str:
+    """a TOML / JSON value as the model's `Tree` (driver syntax)"""
+    if isinstance(v, dict):
+        return "{" + ";".join(thex(str(k)) + "=" + tree_tok(x) for k, x in v.items()) + "}"
+    if v is None:
+        return "n"
+    if isinstance(v, bool):
+        return "b1" if v else "b0"
+    if isinstance(v, int):
+        return f"i{v}"
+    if isinstance(v, str):
+        return "s" + thex(v)
+    if isinstance(v, float):
+        return "f" + thex(repr(v))
+    if isinstance(v, list):
+        toks = [atom_tok(x) for x in v]
+        if all(t is not None for t in toks):
+            return "a[" + ",".join(toks) + "]"
+        if v and all(isinstance(x, list) and all(isinstance(y, int) and not isinstance(y, bool) for y in x) for x in v):
+            return "A[" + "/".join("+".join(str(y) for y in x) for x in v) + "]"
+    return "o" + thex(repr(v))
+
+
+def untree(tok: str):
+    """inverse of `tree_tok` (what the driver prints) -> python value; floats stay ('f', text), other ('o', text)"""
+    pos = 0
+
+    def leaf(t):
+        if t == "n":
+            return None
+        if t in ("b0", "b1"):
+            return t == "b1"
+        if t[0] == "i":
+            return int(t[1:])
+        if t[0] == "s":
+            return bytes.fromhex(t[1:]).decode()
+        if t[0] == "f":
+            return float(bytes.fromhex(t[1:]).decode())
+        if t[0] == "a":
+            body = t[2:-1]
+            return [] if not body else [int(x[2:]) if x[0] == "i" else bytes.fromhex(x[2:]).decode() for x in body.split(",")]
+        if t[0] == "A":
+            body = t[2:-1]
+            return [] if not body else [[int(y) for y in x.split("+")] if x else [] for x in body.split("/")]
+        return ("o", bytes.fromhex(t[1:]).decode())
+
+    def tree():
+        nonlocal pos
+        if tok[pos] == "{":
+            pos += 1
+            out = {}
+            while tok[pos] != "}":
+                if tok[pos] == ";":
+                    pos += 1
+                    continue
+                j = tok.index("=", pos)
+                k = bytes.fromhex(tok[pos:j]).decode()
+                pos = j + 1
+                out[k] = tree()
+            pos += 1
+            return out
+        j = pos
+        while j < len(tok) and tok[j] not in ";}=|":
+            j += 1
+        t = tok[pos:j]
+        pos = j
+        return leaf(t)
+
+    return tree()
+
+
+def canon_json(v, kind=None) -> str:
     """canonical form of a JSON value as the model's `J`"""
     if v is None:
         return "null"
+    if kind is not None and kind.name == "opaque" and kind.sub == "float" and isinstance(v, (int, float)) and not isinstance(v, bool):
+        return "s:" + thex(repr(float(v)))
+    if kind is not None and kind.name == "dict" and isinstance(v, dict):
+        return "d:" + tree_tok(v)
+    if kind is not None and kind.name == "tuples" and isinstance(v, list):
+        return "A:" + "/".join("+".join(str(int(y)) for y in x) for x in v)
     if isinstance(v, bool):
         return "b:1" if v else "b:0"
     if isinstance(v, int):
